@@ -65,6 +65,9 @@ pub struct Agg {
     pub harness_errors: Vec<String>,
     pub samples: Vec<serde_json::Value>,
     pub exhaustive_campaigns: Vec<String>,
+    /// things worth a look that are not verdicts of this property (e.g. a panic seen in passing)
+    #[serde(default)]
+    pub notes: Vec<String>,
 }
 
 fn add_map(a: &mut BTreeMap<String, u64>, b: &BTreeMap<String, u64>) {
@@ -93,6 +96,11 @@ impl Agg {
         *self.schedulers.entry(format!("{:?}/d{}", sc.sched.kind, sc.sched.depth)).or_insert(0) += 1;
         *self.campaigns.entry(sc.campaign.clone()).or_insert(0) += 1;
         *self.ends.entry(out.end.clone()).or_insert(0) += 1;
+        for n in &out.notes {
+            if self.notes.len() < 12 {
+                self.notes.push(format!("{}#{}: {}", sc.campaign, sc.index, n));
+            }
+        }
         if let Some(h) = &out.harness_error {
             if self.harness_errors.len() < 20 {
                 self.harness_errors.push(format!("{}#{}: {}", sc.campaign, sc.index, h));
@@ -154,6 +162,11 @@ impl Agg {
         for h in o.harness_errors {
             if self.harness_errors.len() < 20 {
                 self.harness_errors.push(h);
+            }
+        }
+        for n in o.notes {
+            if self.notes.len() < 12 {
+                self.notes.push(n);
             }
         }
         for s in o.samples {
